@@ -107,8 +107,9 @@ pub fn gen_sim(rng: &mut Rng) -> Sim {
     match rng.below(4) {
         0 => Sim::Default,
         1 => Sim::AcceptAll,
-        2 => Sim::EdgeIdCosine(*rng.pick(&[0.1, 0.3, 0.5, 0.7, 0.9, 0.99])),
-        _ => Sim::DistanceCosine(*rng.pick(&[0.1, 0.3, 0.5, 0.7, 0.9, 0.99])),
+        // thresholds up to and beyond 1 (where only identical routes are "too similar")
+        2 => Sim::EdgeIdCosine(*rng.pick(&[0.1, 0.3, 0.5, 0.7, 0.9, 0.99, 1.0, 1.5])),
+        _ => Sim::DistanceCosine(*rng.pick(&[0.1, 0.3, 0.5, 0.7, 0.9, 0.99, 1.0, 1.5])),
     }
 }
 
